@@ -91,7 +91,7 @@ def build(R, repo, builddir):
 
 
 def parse_cfg(s):
-    cfg = dict(relay='none', ip='v4', databytes='0', port='25', users='cdb', qq='', auth='0', check2822='0')
+    cfg = dict(relay='none', ip='v4', databytes='0', port='25', users='cdb', qq='', auth='0', check2822='0', lip='2')
     for kv in s.split(';'):
         if '=' in kv:
             k, v = kv.split('=', 1)
@@ -168,7 +168,7 @@ def run_case(h, R, line, idx):
         make_tree(d, cfg)
         env = dict(R.RUNENV)
         if cfg['ip'] == 'v4':
-            env.update(TCP6REMOTEIP='::ffff:192.0.2.1', TCP6LOCALIP='::ffff:192.0.2.2')
+            env.update(TCP6REMOTEIP='::ffff:192.0.2.1', TCP6LOCALIP='::ffff:192.0.2.' + cfg['lip'])
         else:
             env.update(TCP6REMOTEIP='2001:db8::1', TCP6LOCALIP='2001:db8::2')
         env.update(TCPREMOTEPORT='1234', TCPLOCALPORT=cfg['port'], QMAILQUEUE=h['qq'], QQ_MSG=os.path.join(d, 'qq.msg'),
